@@ -333,7 +333,7 @@ def _merge_dist(a, b):
     return b
 
 
-def load_known(prop):
+def load_known(prop, status="finding"):
     """known findings = known_findings.json + known_findings.d/*.json (same format, one file per property)"""
     res = []
     files = [KNOWN] + sorted((VERIF / "known_findings.d").glob("*.json"))
@@ -341,7 +341,7 @@ def load_known(prop):
         if not fp.exists():
             continue
         data = json.loads(fp.read_text())
-        res += [f for f in data.get("findings", []) if f.get("property") == prop and f.get("status") == "finding"]
+        res += [f for f in data.get("findings", []) if f.get("property") == prop and f.get("status") == status]
     return res
 
 
@@ -528,6 +528,23 @@ def _run(mod, ctx: Ctx) -> int:
             known_hits.setdefault(hit["id"], (hit, f))
         else:
             new_fail.append(f)
+
+    # regression corpus: witnesses of REPAIRED defects are replayed too; a failure there is a new violation
+    # (fixed entries suppress nothing)
+    if hasattr(mod, "check_witness"):
+        for k in load_known(prop, status="fixed"):
+            if "witness" not in k:
+                continue
+            try:
+                wf = mod.check_witness(ctx, k["witness"])
+            except Exception as e:
+                log(f"[{prop}] fixed-witness replay of {k['id']} raised {type(e).__name__}: {e}")
+                wf = None
+            if wf:
+                wf = dict(wf)
+                wf["sig"] = f"regression:{k['id']}"
+                wf["what"] = f"repaired defect {k['id']} ({k.get('commit')}) is back: " + str(wf.get("what", ""))
+                new_fail.insert(0, wf)
 
     for kid, (k, f) in sorted(known_hits.items()):
         print(f"KNOWN-FINDING: property={prop} {k['id']}: {k['what']}")
